@@ -600,6 +600,19 @@ def r01_234(chk, cr):
                found=[f"{'' if p else 'not '}{c}"[-80:] for c, p in a.guards])
 
 
+        # every enumerated pair is considered: what decides whether a pair is merged is a property of the pair (order, both alive, same
+        # site) - a condition that does not look at the pair switches the whole merge off, a break abandons the remaining pairs
+        from ..symex import has_break
+        base = set()
+        for e0 in ev.events:            # conditions under which the pairs were enumerated in the first place (e.g. the memo test)
+            if e0.kind == "assign" and e0.name in ("dist", "tree"):
+                base |= {(c.key(), p) for c, p in e0.guards}
+        foreign = [(c, p) for c, p in a.guards if (c.key(), p) not in base and ia.key() not in c.key() and ib.key() not in c.key() and elem.key() not in c.key()]
+        chk.ob("R01.4", CR, q, "every enumerated pair is considered for merging: the merge depends on the pair only (no switch that skips the merge, "
+               "no break out of the pair loop)", not foreign and not has_break(loop.node.body), node=a.event.node, fingerprint="merge-every-pair",
+               found=[f"{'' if p else 'not '}{c}"[-90:] for c, p in foreign] + (["break in the pair loop"] if has_break(loop.node.body) else []))
+
+
 def ds_term(defs):
     return defs.get("dist")
 
